@@ -1,9 +1,11 @@
 prop("C04",
      level_text="Lean 4 theorems over the executable plugin model M4-core (Galaxy/Model/Plugin.lean: the galaxy-ipam scheduler "
                 "plugin at operation granularity - own compact IPAM sub-model, API truth, stale informer views, pending "
-                "delete/finish events carrying the pod snapshot, cloud-provider log - with 17 moves incl. the adversary moves "
-                "createPod/deletePod with fresh UIDs, delayed and dropped events, listerSync, resync in any order, apiRelease, "
-                "syncPodIPs, reload, restart; Go map nondeterminism as validated choice arguments; one failing apiserver and "
+                "delete/finish events carrying the pod snapshot, cloud-provider log - with 22 moves incl. the adversary moves "
+                "createPod/deletePod with fresh UIDs, delayed and dropped events, listerSync, resync in any order and split "
+                "into snapshot + per-record steps, apiRelease, syncPodIPs, reload, restart, preempt (getSubnet WITHOUT the "
+                "pod lock), an administrator's reservation / its withdrawal, and crash plans (crashAt k j: the move dies "
+                "after k apiserver calls and j provider requests, memory + caches + queued events are lost, restart); Go map nondeterminism as validated choice arguments; one failing apiserver and "
                 "one failing provider call per move). Proved by an inductive invariant (11 conjuncts: store/memory coherence, "
                 "ownership of handed IPs by key AND uid, no foreign-uid record under a live key, unique fresh UIDs, lister "
                 "snapshots, dead events, ...) preserved by EVERY move and lifted over all finite histories: "
@@ -16,15 +18,26 @@ prop("C04",
                 "quantifier the theorems also cover one failing apiserver call and one failing provider call per move at any "
                 "position (a failed ConfigurePool delete leaves an orphan object, State.orphans). Three defects found by this "
                 "check are fixed in /repo (stale-lister bind, bind beside a stale record, per-key resync/Release); their replays "
-                "in corpus/C04 are regression histories. Scalable custom resources (TApp with a scale subresource), Preempt and "
-                "admin reservations are not modelled.",
+                "in corpus/C04 are regression histories. Also proved on this model and built by this check (restated in Props/C05 and "
+                "Props/C09): Lemmas/PluginCrash.lean crash_restart_resync_safe (every reachable state, every move, every crash "
+                "point, every resync order) and Lemmas/PluginReserved.lean reserved_never_in_annotation, "
+                "unconfigured_never_in_annotation, reservation_kept, reservation_outlives_plugin_moves, crash_keeps_reservations; "
+                "a further side condition: a Release request does not name an administrator's reservation (the HTTP handler "
+                "always builds a key with an application-type prefix). A reservation and its watch event are one move (the "
+                "window in between is M3's subject, C09); reservation keys are texts that do not parse as keys (the documented "
+                "example `pool__reserved-for-node_` is a pool-shaped key: a pod annotated with that pool would take it, as for "
+                "any pool). Scalable custom resources (TApp with a scale subresource) are the extension Model/PluginC03.lean.",
      technique="Lean 4 inductive invariant over an executable model parameterised by regenerated structural facts (factgen plugin: "
                "unbindChecksUID, bindChecksUID, bindChecksListerUID, bindUidGuardCoversWholeKey, resyncAndReleaseCheckWholeKey, release/resync re-read under lockPod, lister-then-apiserver, lockPod at six entry "
                "points) + differential correspondence of every step (result class, observed choices, full digest of memory, "
                "store, pods, events, provider) of the REAL FloatingIPPlugin built in-process on fake clientsets behind "
                "call-counting fault-injecting decorators with harness-controlled listers; monitor = the C04 statement on the "
-               "real IPAM and the recording provider after every step; thorough: breadth-first enumeration of all states "
+               "real IPAM and the recording provider after every step, plus the reservation monitor (a reservation in force keeps "
+               "its record and object, no live pod holds a reserved or de-configured address); crash sweep: every external "
+               "call index of ~150 histories x 8 moves is a crash point (panic at the call, fresh plugin on the same fake "
+               "apiserver/store, compared with the model's crashAt); lock-exclusion probe over all pairs of entry points; thorough: breadth-first enumeration of all states "
                "reachable within 8 moves over a 16-move alphabet (2 pod names, any incarnations, 2 addresses)",
+     lean_modules=["Galaxy.Props.C04", "Galaxy.Lemmas.PluginCrash", "Galaxy.Lemmas.PluginReserved"],
      factgen=["plugin"],
      drivers=["plugin"],
      trusted=["tools/factgen/cmd/plugin: syntactic extraction (statement order inside single functions, no aliasing analysis)",
